@@ -14,7 +14,8 @@ sec = '''## 11. Seeded changes: which check catches which
 property and a scratch worktree (nothing from `/verif`): two per property in a first round
 (`C<nn>-<k>`), three more per property in a second and third round in which the agents
 were told which ideas had been used already and asked for subtler ones (`M<nn>-<k>`, the
-property is C<nn>), and two more per property in a fourth round (`N<nn>-<k>`). Each was confirmed here in a scratch worktree
+property is C<nn>), and two more per property in a fourth (`N<nn>-<k>`) and a fifth round (`P<nn>-<k>`; there the
+agents were told what kind of harness they were up against and to aim at its blind spots). Each was confirmed here in a scratch worktree
 (`tools/evalseed.sh`): the patch applies to `/repo` HEAD and builds with and without the
 tag, the 233 baseline tests still pass with it, the agent's demonstration fails with the
 change and passes without it, and the property's quick check reports a violation against
@@ -65,6 +66,15 @@ element behind 8 KiB); commands the harness has no grammar for, taken from the s
 registry; no-command requests in the race workload; keys made of wildcard characters at
 server level; integers in non-canonical spellings; connections ended by the server while a
 tracer is installed.
+From the fifth round: state a *parser* accumulates over a long stream (budgets, depth
+counters, slabs), state a *server* accumulates over thousands of connections; error values
+with a meaning (io.EOF, timeouts) coming from a handler, a message together with an error;
+real concurrency between composed read commands and writers (lock-step interleavings cannot
+deadlock); what happens *during* Stop, and Stop called from inside a command; the host
+environment of the server process (trust store); bytes that are not a request; byte strings
+that are not text; containers that grow and shrink by hundreds of elements; the spelling of
+command names in checks that used upper case only; identity confused with address; objects
+swapped at run time (tracer); handler calls outliving the command that made them.
 
 Seventeen **behaviour-preserving** changes (refactorings, micro-optimisations,
 data-structure swaps, renames and re-worded error texts in redis/proto, the server core,
